@@ -22,6 +22,7 @@ getuid/geteuid of every registered object after the step) and decides whether pr
   asked    a seteuid(string) of an existing object reaches the master with exactly that object and string
   bind     a function re-bound (bind()) to another object runs only after master::valid_bind approved that doer and
            new owner; what it creates is judged as an op of the new owner
+  vo       a blueprint that master::valid_object refused is not created
   fp       geteuid(function) after a via / bind op is the euid of the function's (new) owner
   known    every object in a snapshot was there before or was announced in this step; announced objects appear in
            the snapshot as announced; every object has a uid; the driver did not crash
@@ -158,10 +159,20 @@ def fpClause (r : StepRec) : Bool :=
   | some t, some S => decide (r.res = some (fpEuid S t))
   | _, _ => true
 
+/-- vo       a blueprint master::valid_object refused (or in which it raised an error) is not created: the segment ends the op
+             with an error and announces nothing -/
+def voClause (r : StepRec) : Bool :=
+  match r.vo with
+  | none => true
+  | some (_, a) =>
+    a.approved || (r.creations.isEmpty && (match r.res with
+      | some (.err _) => true
+      | _ => false))
+
 def clauses (bb : Option Name) (P : List Obj) (r : StepRec) : List (Bool × String) :=
   [(knownClause P r, "known"), (euidClause P r, "euid"), (uidClause P r, "uid"),
    (creationClause bb P r, "creation"), (noEuidClause P r, "noeuid"), (exportClause P r, "export"),
-   (askedClause P r, "asked"), (bindClause r, "bind"), (fpClause r, "fp")]
+   (askedClause P r, "asked"), (bindClause r, "bind"), (fpClause r, "fp"), (voClause r, "vo")]
 
 /-- violated clauses of one step, given the previous snapshot -/
 def judgeStep (bb : Option Name) (P : List Obj) (r : StepRec) : List String :=
